@@ -131,6 +131,14 @@ def rule_E2(ctx: Ctx) -> None:
                 if n2.ast is not None and n2 is not s_ and pg.can_reach(s_, n2) and any(
                         isinstance(t, ast.Assign) and X.U(t.targets[0]) == "self.seed" for t in ast.walk(n2.ast)):
                     late.append(X.U(n2.ast)[:60])
+        # a configured seed is only ever replaced when it is None (0 is a seed)
+        ppar = X.parents_map(pi.node)
+        for st in [n for n in ast.walk(pi.node) if isinstance(n, (ast.Assign, ast.AugAssign)) and X.U(n.targets[0] if isinstance(n, ast.Assign) else n.target) == "self.seed"]:
+            gd = ppar.get(st)
+            under_none = isinstance(gd, ast.If) and st in gd.body and X.U(gd.test) in ("self.seed is None", "None is self.seed")
+            ctx.judge(pi, under_none, {"class": c.qualname, "store": X.U(st)[:100], "guard": X.U(gd.test) if isinstance(gd, ast.If) else None},
+                      "the configured seed is replaced by a fresh random one only under `self.seed is None`",
+                      "a legitimate seed (e.g. 0, which is falsy) is silently replaced: the same configuration generates different mazes each time it is built", node=st)
         ctx.judge(pi, ok and not late, {"class": c.qualname, "seed_calls": len(sn), "super_calls": len(sup), "on_every_normal_path": ok,
                                         "seed_reassigned_after": late}, exp2,
                   "a path through __post_init__ skips the reseed (or seeds with a value that is changed afterwards)")
